@@ -215,14 +215,37 @@ func runC17(w *World, r *Report) {
 				return
 			}
 			_, args := callArgs(c)
-			encoded := false
-			for _, o := range origins(args[0]) {
-				if kc, ok := o.(*ssa.Call); ok && (strings.HasSuffix(calleeName(kc), ".encodeAddressKey") || strings.HasSuffix(calleeName(kc), ".encodeTrxKey")) {
-					encoded = true
+			var isEncoded func(v ssa.Value, inFn *ssa.Function, depth int) bool
+			isEncoded = func(v ssa.Value, inFn *ssa.Function, depth int) bool {
+				for _, o := range origins(v) {
+					if kc, ok := o.(*ssa.Call); ok && (strings.HasSuffix(calleeName(kc), ".encodeAddressKey") || strings.HasSuffix(calleeName(kc), ".encodeTrxKey")) {
+						return true
+					}
+					// the key is a parameter of an unexported helper: every call site must pass an encoded key
+					if prm, ok := o.(*ssa.Parameter); ok && depth < 2 && inFn.Object() != nil && !inFn.Object().Exported() {
+						callers := staticCallers(w, inFn)
+						all := len(callers) > 0
+						for _, cs := range callers {
+							found := false
+							for k, p := range inFn.Params {
+								if p == prm && k < len(cs.Common().Args) {
+									found = isEncoded(cs.Common().Args[k], ownerFn(cs.Parent()), depth+1)
+								}
+							}
+							if !found {
+								all = false
+							}
+						}
+						if all {
+							return true
+						}
+					}
 				}
+				return false
 			}
+			encoded := isEncoded(args[0], owner, 0)
 			nWrites++
-			isIndex := indexFns[owner.Name()]
+			isIndex := indexFns[refName(owner)]
 			// helpers extracted from the index functions are reached only from them
 			if !isIndex && owner.Object() != nil && !owner.Object().Exported() {
 				callers := staticCallers(w, owner)
@@ -232,7 +255,7 @@ func runC17(w *World, r *Report) {
 					for top.Parent() != nil {
 						top = top.Parent()
 					}
-					if !indexFns[top.Name()] {
+					if !indexFns[refName(top)] {
 						isIndex = false
 					}
 				}
@@ -244,4 +267,11 @@ func runC17(w *World, r *Report) {
 	if nWrites == 0 {
 		r.bad("index-keys-private", "cache/writes", "-", "the cache is written", "no Set/Delete found")
 	}
+}
+
+func ownerFn(fn *ssa.Function) *ssa.Function {
+	for fn.Parent() != nil {
+		fn = fn.Parent()
+	}
+	return fn
 }
